@@ -933,6 +933,17 @@ def count_functions(ctx):
                     and call_attr(body[0].value) in out and [ast.unparse(a) for a in body[0].value.args] == [p] and not body[0].value.keywords:
                 out.setdefault(nm, []).append((c, p))
                 changed = True
+    # a class-level alias of a count function is one too: `_get_part_count = staticmethod(count_parts)`
+    for cs in P.by_name.values():
+        for c in cs:
+            for st in c.node.body:
+                if isinstance(st, ast.Assign) and len(st.targets) == 1 and isinstance(st.targets[0], ast.Name):
+                    v = st.value
+                    if isinstance(v, ast.Call) and isinstance(v.func, ast.Name) and v.func.id in ('staticmethod', 'classmethod') and len(v.args) == 1:
+                        v = v.args[0]
+                    nm_ = v.id if isinstance(v, ast.Name) else v.attr if isinstance(v, ast.Attribute) else None
+                    if nm_ in out and st.targets[0].id not in out:
+                        out[st.targets[0].id] = [(c, out[nm_][0][1])]
     P.__dict__['_sa_count_functions'] = out
     return out
 
